@@ -149,3 +149,269 @@ package zuc
 //@   ensures err != nil ==> result0 == nil
 //@   freshornil result0
 //@   modifies nothing
+
+// ---- 128-EIA3 (C11): the streaming MAC object over an ABSTRACT generator and an ABSTRACT per-block
+// accumulation. A generator state is identified by the values that determine its future output
+// (LFSR words, R1, R2): ZGEN(...) with key/iv identity ZGK and word position ZGP; ZKW(kid, i) is word
+// i of the keystream. EIAF(kid, p0, t0, a, o, n) is the accumulator after n 16-byte blocks of a[o..]
+// (block b uses key words p0+4b .. p0+4b+4). Ghost view of the object: mmsg = the bytes written
+// since Reset, mlen their number. Everything the object holds is a function of (initState, mmsg):
+// this is what makes the tag independent of how the message was split across writes.
+//@ ghost mmsg : (Array Int Int) of ZUC128Mac
+//@ ghost mlen : Int of ZUC128Mac
+
+//@ pred zgen(s) := ZGEN(BLK(arr(s.lfsr), 0, 16), s.r1, s.r2)
+//@ pred mari(m) := 0 <= m.nx && m.nx < 16 && 0 <= ghost(mlen, m) && m.nx == ghost(mlen, m) % 16 && m.len == ghost(mlen, m) % 18446744073709551616 && m.tagSize == 4
+//@ pred mbufx(m) := forall j :: 0 <= j && j < m.nx ==> m.x[j] == ghost(mmsg, m)[ghost(mlen, m) - m.nx + j]
+//@ pred mgenok(m) := ZGK(zgen(m.zucState32)) == ZGK(zgen(m.initState)) && ZGP(zgen(m.zucState32)) == ZGP(zgen(m.initState)) + 4 + 4 * ((ghost(mlen, m) - m.nx) / 16)
+//@ pred mkw(m) := forall i :: 0 <= i && i < 4 ==> m.k0[i] == ZKW(ZGK(zgen(m.initState)), ZGP(zgen(m.initState)) + 4 * ((ghost(mlen, m) - m.nx) / 16) + i)
+//@ pred mtag(m) := m.t == EIAF(ZGK(zgen(m.initState)), ZGP(zgen(m.initState)), 0, ghost(mmsg, m), 0, (ghost(mlen, m) - m.nx) / 16)
+//@ pred minv(m) := m != nil && mari(m) && mbufx(m) && mgenok(m) && mkw(m) && mtag(m)
+
+// the word generator, by the value of the state it starts from (assembly or generic; assumed)
+//@ func (*zucState32).genKeywords trusted
+//@   requires s != nil
+//@   let G := zgen(s)
+//@   ensures forall j :: 0 <= j && j < len(words) ==> words[j] == ZKW(ZGK(G), ZGP(G) + j)
+//@   ensures ZGK(zgen(s)) == ZGK(G) && ZGP(zgen(s)) == ZGP(G) + len(words)
+//@   modifies words[0..len(words)], *s
+
+// whole blocks: the dispatcher (assembly round function or the generic bit loop) is assumed to absorb
+// block after block with the key-word window sliding by four words per block
+//@ func block trusted property C11
+//@   requires m != nil && len(p) % 16 == 0 && !sameobj(p, m.k0)
+//@   let KID := ZGK(zgen(m.zucState32))
+//@   let P := ZGP(zgen(m.zucState32))
+//@   requires forall i :: 0 <= i && i < 4 ==> m.k0[i] == ZKW(KID, P - 4 + i)
+//@   ensures m.t == EIAF(KID, P - 4, old(m.t), arr(p), offof(p), len(p) / 16)
+//@   ensures ZGK(zgen(m.zucState32)) == KID && ZGP(zgen(m.zucState32)) == P + 4 * (len(p) / 16)
+//@   ensures forall i :: 0 <= i && i < 4 ==> m.k0[i] == ZKW(KID, P - 4 + 4 * (len(p) / 16) + i)
+//@   modifies m.t, m.k0, m.zucState32
+
+// the accumulation depends only on the bytes it consumes; continuing from the state after q blocks
+//@ lemma eiaf_ext property C11 vars kid,p0,t0,a:arr,o,a2:arr,o2,n induct n : (forall j :: 0 <= j && j < 16 * n ==> a[o + j] == a2[o2 + j]) ==> EIAF(kid, p0, t0, a, o, n) == EIAF(kid, p0, t0, a2, o2, n)
+//@ lemma eiaf_app property C11 vars kid,p0,t1,a:arr,q,a2:arr,o2,m induct m : (q >= 0 && t1 == EIAF(kid, p0, 0, a, 0, q) && (forall j :: 0 <= j && j < 16 * m ==> a[16 * q + j] == a2[o2 + j])) ==> EIAF(kid, p0 + 4 * q, t1, a2, o2, m) == EIAF(kid, p0, 0, a, 0, q + m)
+
+// Reset: back to the initial view whatever happened before (empty message, generator restored from
+// initState and advanced by the four key words of the first window)
+//@ func (*ZUC128Mac).Reset property C11
+//@   requires m != nil && m.tagSize == 4
+//@   ghostset mlen[m] := 0
+//@   ensures minv(m) && ghost(mlen, m) == 0
+//@   modifies m.t, m.nx, m.len, m.zucState32, m.k0
+
+//@ func (*ZUC128Mac).Write property C11
+//@   requires minv(m) && !sameobj(p, m.x) && !sameobj(p, m.k0) && ghost(mlen, m) + len(p) < 4611686018427387904
+//@   let M := ghost(mmsg, m)
+//@   let L := ghost(mlen, m)
+//@   let NX := m.nx
+//@   let PA := arr(p)
+//@   let PO := offof(p)
+//@   let PL := len(p)
+//@   let M2 := CAT(M, L, PA, PO, PL)
+//@   let KID := ZGK(zgen(m.initState))
+//@   let P0 := ZGP(zgen(m.initState))
+//@   ghostset mmsg[m] := M2
+//@   ghostset mlen[m] := L + PL
+//@   ensures nn == PL && err == nil
+//@   ensures m != nil && mari(m)
+//@   ensures mbufx(m)
+//@   ensures mgenok(m)
+//@   ensures mkw(m)
+//@   ensures mtag(m)
+//@   modifies m.t, m.x, m.nx, m.len, m.k0, m.zucState32
+//@   apply at entry: eiaf_ext(KID, P0, 0, M2, 0, M, 0, (L - NX) / 16)
+//@   assert at entry: m.t == EIAF(KID, P0, 0, M2, 0, (L - NX) / 16)
+//@   assert before call block#1: 16 * ((L - NX) / 16) == L - NX && 0 < NX && m.nx == 16
+//@   assert before call block#1: forall j :: 0 <= j && j < 16 ==> M2[L - NX + j] == m.x[j]
+//@   assert before call block#1: forall j :: 0 <= j && j < 16 * 1 ==> M2[16 * ((L - NX) / 16) + j] == m.x[j]
+//@   apply before call block#1: eiaf_app(KID, P0, m.t, M2, (L - NX) / 16, arr(m.x), 0, 1)
+//@   assert after call block#1: m.t == EIAF(KID, P0, 0, M2, 0, (L - NX) / 16 + 1)
+//@   assert before call block#2: (L + PL - len(p)) % 16 == 0 && sameobj(p, old(p)) && offof(p) == PO + PL - len(p) && n % 16 == 0 && 0 < n && n <= len(p) && len(p) - n < 16
+//@   assert before call block#2: 16 * ((L + PL - len(p)) / 16) == L + PL - len(p) && 16 * (n / 16) == n
+//@   assert before call block#2: m.t == EIAF(KID, P0, 0, M2, 0, (L + PL - len(p)) / 16)
+//@   assert before call block#2: forall j :: 0 <= j && j < n ==> M2[L + PL - len(p) + j] == p[j]
+//@   assert before call block#2: forall j :: 0 <= j && j < 16 * (n / 16) ==> M2[16 * ((L + PL - len(p)) / 16) + j] == p[j]
+//@   apply before call block#2: eiaf_app(KID, P0, m.t, M2, (L + PL - len(p)) / 16, arr(p), offof(p), n / 16)
+//@   assert after call block#2: m.t == EIAF(KID, P0, 0, M2, 0, (L + PL - len(p)) / 16 + n / 16)
+//@   assert after call block#2: (L + PL - len(p)) / 16 + n / 16 == (L + PL - len(p) + n) / 16
+
+// the final step: memory safety for every buffer fill and every number of extra bits (the bit-level
+// accumulation of the tail is not stated here)
+//@ func (*ZUC128Mac).checkSum property C11
+//@   requires m != nil && 0 <= m.nx && m.nx < 16 && 0 <= additionalBits && additionalBits < 8
+//@   nooverflow
+//@   loop 1 invariant 0 <= i && i <= nwords - 1 && nwords <= 4 && 1 <= nwords && m.nx == old(m.nx)
+//@   loop 1 decreases nwords - 1 - i
+//@   loop 2 invariant 0 <= j && j <= 32 && 0 <= i && i < nwords - 1
+//@   loop 2 decreases 32 - j
+//@   loop 3 invariant 0 <= j && j <= nRemainBits
+//@   loop 3 decreases nRemainBits - j
+//@   modifies m.x, m.k0, m.t, m.zucState32
+
+// Sum works on a copy: nothing of the object changes, so writing can continue afterwards
+//@ func (*ZUC128Mac).Sum property C11
+//@   requires minv(m) && !sameobj(in, m.x) && !sameobj(in, m.k0)
+//@   let M := ghost(mmsg, m)
+//@   let L := ghost(mlen, m)
+//@   ensures len(result) == len(in) + 4
+//@   ensures forall j :: 0 <= j && j < len(in) ==> result[j] == old(in[j])
+//@   ensures minv(m) && ghost(mlen, m) == L && ghost(mmsg, m) == M
+//@   modifies in[len(in)..cap(in)]
+
+// Finish: absorbs the whole bytes, computes the tag and returns the object to its initial view
+//@ func (*ZUC128Mac).Finish property C11
+//@   requires minv(m) && 0 <= nbits && nbits < 4611686018427387904 && !sameobj(p, m.x) && !sameobj(p, m.k0) && ghost(mlen, m) + len(p) < 4611686018427387904
+//@   maypanic
+//@   ghostset mlen[m] := 0
+//@   ensures len(result) == 4
+//@   ensures minv(m) && ghost(mlen, m) == 0
+//@   modifies m.t, m.x, m.nx, m.len, m.k0, m.zucState32, ghost(mmsg, m)
+
+// construction: a 16-byte key and a 16-byte iv, or an error and no object
+//@ func NewHash property C11
+//@   ensures err == nil ==> result0 != nil && minv(result0) && ghost(mlen, result0) == 0 && len(key) == 16 && len(iv) == 16
+//@   ensures err != nil ==> result0 == nil
+//@   freshornil result0
+//@   modifies nothing
+
+// key/iv loading and the nonlinear function: only the generator state changes (frames)
+//@ func (*zucState32).loadKeyIV16 property C11
+//@   requires s != nil && len(key) == 16 && len(iv) == 16
+//@   modifies s.lfsr
+//@ func (*zucState32).f32 property C11
+//@   requires s != nil
+//@   nooverflow
+//@   modifies s.r1, s.r2
+
+// ---- ZUC-256 MAC (C11), tags of 1, 2 or 4 words (tw): the same streaming structure. Reset draws the
+// tw initial tag words and then the four key words of the first window; EIA2F(kid, p0, tw, t0, a, o, n)
+// is the accumulator (an array of tw words) after n blocks.
+//@ ghost m2msg : (Array Int Int) of ZUC256Mac
+//@ ghost m2len : Int of ZUC256Mac
+//@ pred m2shape(m) := m != nil && (m.tagSize == 4 || m.tagSize == 8 || m.tagSize == 16) && len(m.t) == m.tagSize / 4 && !sameobj(m.t, m.x) && !sameobj(m.t, m.k0) && !sameobj(m.t, m.lfsr) && !sameobj(m.t, m.initState.lfsr)
+//@ pred m2ari(m) := 0 <= m.nx && m.nx < 16 && 0 <= ghost(m2len, m) && m.nx == ghost(m2len, m) % 16 && m.len == ghost(m2len, m) % 18446744073709551616
+//@ pred m2bufx(m) := forall j :: 0 <= j && j < m.nx ==> m.x[j] == ghost(m2msg, m)[ghost(m2len, m) - m.nx + j]
+//@ pred m2genok(m) := ZGK(zgen(m.zucState32)) == ZGK(zgen(m.initState)) && ZGP(zgen(m.zucState32)) == ZGP(zgen(m.initState)) + m.tagSize / 4 + 4 + 4 * ((ghost(m2len, m) - m.nx) / 16)
+//@ pred m2kw(m) := forall i :: 0 <= i && i < 4 ==> m.k0[i] == ZKW(ZGK(zgen(m.initState)), ZGP(zgen(m.initState)) + m.tagSize / 4 + 4 * ((ghost(m2len, m) - m.nx) / 16) + i)
+//@ pred m2tag(m) := forall i :: 0 <= i && i < m.tagSize / 4 ==> m.t[i] == EIA2F(ZGK(zgen(m.initState)), ZGP(zgen(m.initState)) + m.tagSize / 4, m.tagSize / 4, ZKWARR(ZGK(zgen(m.initState)), ZGP(zgen(m.initState))), ghost(m2msg, m), 0, (ghost(m2len, m) - m.nx) / 16)[i]
+//@ pred m2inv(m) := m2shape(m) && m2ari(m) && m2bufx(m) && m2genok(m) && m2kw(m) && m2tag(m)
+
+//@ func block256 trusted property C11
+//@   requires m != nil && (m.tagSize == 4 || m.tagSize == 8 || m.tagSize == 16) && len(m.t) == m.tagSize / 4
+//@   requires !sameobj(m.t, m.k0) && !sameobj(m.t, m.lfsr) && !sameobj(m.t, m.initState.lfsr)
+//@   requires len(p) % 16 == 0
+//@   requires !sameobj(p, m.k0)
+//@   requires !sameobj(p, m.t)
+//@   let KID := ZGK(zgen(m.zucState32))
+//@   let P := ZGP(zgen(m.zucState32))
+//@   let TW := m.tagSize / 4
+//@   let T0 := CAT(ZEROARR(), 0, arr(m.t), offof(m.t), TW)
+//@   requires forall i :: 0 <= i && i < 4 ==> m.k0[i] == ZKW(KID, P - 4 + i)
+//@   ensures forall i :: 0 <= i && i < TW ==> m.t[i] == EIA2F(KID, P - 4, TW, T0, arr(p), offof(p), len(p) / 16)[i]
+//@   ensures ZGK(zgen(m.zucState32)) == KID && ZGP(zgen(m.zucState32)) == P + 4 * (len(p) / 16)
+//@   ensures forall i :: 0 <= i && i < 4 ==> m.k0[i] == ZKW(KID, P - 4 + 4 * (len(p) / 16) + i)
+//@   modifies m.t[0..len(m.t)], m.k0, m.zucState32
+
+//@ lemma eia2f_ext property C11 vars kid,p0,tw,t0:arr,a:arr,o,a2:arr,o2,n induct n : (forall j :: 0 <= j && j < 16 * n ==> a[o + j] == a2[o2 + j]) ==> EIA2F(kid, p0, tw, t0, a, o, n) == EIA2F(kid, p0, tw, t0, a2, o2, n)
+//@ lemma eia2f_app property C11 vars kid,p0,tw,t1:arr,t0:arr,a:arr,q,a2:arr,o2,m induct m : (q >= 0 && (tw == 1 || tw == 2 || tw == 4) && (forall i :: 0 <= i && i < tw ==> t1[i] == EIA2F(kid, p0, tw, t0, a, 0, q)[i]) && (forall j :: 0 <= j && j < 16 * m ==> a[16 * q + j] == a2[o2 + j])) ==> forall i :: 0 <= i && i < tw ==> EIA2F(kid, p0 + 4 * q, tw, t1, a2, o2, m)[i] == EIA2F(kid, p0, tw, t0, a, 0, q + m)[i]
+
+//@ func (*ZUC256Mac).Reset property C11
+//@   requires m2shape(m)
+//@   ghostset m2len[m] := 0
+//@   ensures m2inv(m) && ghost(m2len, m) == 0
+//@   modifies m.t[0..len(m.t)], m.nx, m.len, m.zucState32, m.k0
+
+//@ func (*ZUC256Mac).Write property C11
+//@   config tw in 1,2,4
+//@   requires m2inv(m) && m.tagSize == 4 * tw && !sameobj(p, m.x) && !sameobj(p, m.k0) && !sameobj(p, m.t) && ghost(m2len, m) + len(p) < 4611686018427387904
+//@   let M := ghost(m2msg, m)
+//@   let L := ghost(m2len, m)
+//@   let NX := m.nx
+//@   let PA := arr(p)
+//@   let PO := offof(p)
+//@   let PL := len(p)
+//@   let M2 := CAT(M, L, PA, PO, PL)
+//@   let KID := ZGK(zgen(m.initState))
+//@   let P0 := ZGP(zgen(m.initState)) + tw
+//@   let T0 := ZKWARR(KID, ZGP(zgen(m.initState)))
+//@   ghostset m2msg[m] := M2
+//@   ghostset m2len[m] := L + PL
+//@   ensures nn == PL && err == nil
+//@   ensures m2shape(m) && m2ari(m)
+//@   ensures m2bufx(m)
+//@   ensures m2genok(m)
+//@   ensures m2kw(m)
+//@   ensures m2tag(m)
+//@   modifies m.t[0..len(m.t)], m.x, m.nx, m.len, m.k0, m.zucState32
+//@   apply at entry: eia2f_ext(KID, P0, tw, T0, M2, 0, M, 0, (L - NX) / 16)
+//@   assert at entry: forall i :: 0 <= i && i < tw ==> m.t[i] == EIA2F(KID, P0, tw, T0, M2, 0, (L - NX) / 16)[i]
+//@   assert before call block256#1: 16 * ((L - NX) / 16) == L - NX && 0 < NX && m.nx == 16
+//@   assert before call block256#1: forall j :: 0 <= j && j < 16 ==> M2[L - NX + j] == m.x[j]
+//@   assert before call block256#1: forall j :: 0 <= j && j < 16 * 1 ==> M2[16 * ((L - NX) / 16) + j] == m.x[j]
+//@   apply before call block256#1: eia2f_app(KID, P0, tw, CAT(ZEROARR(), 0, arr(m.t), offof(m.t), tw), T0, M2, (L - NX) / 16, arr(m.x), 0, 1)
+//@   assert after call block256#1: forall i :: 0 <= i && i < tw ==> m.t[i] == EIA2F(KID, P0, tw, T0, M2, 0, (L - NX) / 16 + 1)[i]
+//@   assert before call block256#2: (L + PL - len(p)) % 16 == 0 && sameobj(p, old(p)) && offof(p) == PO + PL - len(p) && n % 16 == 0 && 0 < n && n <= len(p) && len(p) - n < 16
+//@   assert before call block256#2: 16 * ((L + PL - len(p)) / 16) == L + PL - len(p) && 16 * (n / 16) == n
+//@   assert before call block256#2: forall i :: 0 <= i && i < tw ==> m.t[i] == EIA2F(KID, P0, tw, T0, M2, 0, (L + PL - len(p)) / 16)[i]
+//@   assert before call block256#2: forall j :: 0 <= j && j < n ==> M2[L + PL - len(p) + j] == p[j]
+//@   assert before call block256#2: forall j :: 0 <= j && j < 16 * (n / 16) ==> M2[16 * ((L + PL - len(p)) / 16) + j] == p[j]
+//@   apply before call block256#2: eia2f_app(KID, P0, tw, CAT(ZEROARR(), 0, arr(m.t), offof(m.t), tw), T0, M2, (L + PL - len(p)) / 16, arr(p), offof(p), n / 16)
+//@   assert after call block256#2: forall i :: 0 <= i && i < tw ==> m.t[i] == EIA2F(KID, P0, tw, T0, M2, 0, (L + PL - len(p)) / 16 + n / 16)[i]
+//@   assert after call block256#2: (L + PL - len(p)) / 16 + n / 16 == (L + PL - len(p) + n) / 16
+
+// the final step of the ZUC-256 MAC: memory safety for every buffer fill, every number of extra bits
+// and the three tag sizes (the bit-level accumulation of the tail is not stated here)
+//@ func (*ZUC256Mac).checkSum property C11
+//@   requires m2shape(m) && 0 <= m.nx && m.nx < 16 && 0 <= additionalBits && additionalBits < 8
+//@   nooverflow
+//@   let TS := m.tagSize
+//@   ensures len(result) == TS
+//@   loop 1 invariant 0 <= l && l <= words - 1 && words <= 4 && 1 <= words && m2shape(m) && m.tagSize == TS && onlychanged(m.t)
+//@   loop 1 decreases words - 1 - l
+//@   loop 2 invariant 0 <= i && i <= 32 && 0 <= l && l < words - 1 && m2shape(m) && m.tagSize == TS && onlychanged(m.t)
+//@   loop 2 decreases 32 - i
+//@   loop 3 invariant 0 <= j && j <= TS / 4 && 0 <= l && l < words - 1 && m2shape(m) && m.tagSize == TS && onlychanged(m.t)
+//@   loop 3 decreases TS / 4 - j
+//@   loop 4 invariant 0 <= j && j <= TS / 4 - 1 && 0 <= l && l < words - 1 && m2shape(m) && m.tagSize == TS && onlychanged(m.t)
+//@   loop 4 decreases TS / 4 - 1 - j
+//@   loop 5 invariant 0 <= i && i <= nRemainBits && m2shape(m) && m.tagSize == TS && 0 <= kIdx && kIdx <= 3 && kIdx == words - 1 && onlychanged(m.t)
+//@   loop 5 decreases nRemainBits - i
+//@   loop 6 invariant 0 <= j && j <= TS / 4 && m2shape(m) && m.tagSize == TS && 0 <= kIdx && kIdx <= 3 && onlychanged(m.t)
+//@   loop 6 decreases TS / 4 - j
+//@   loop 7 invariant 0 <= j && j <= TS / 4 && m2shape(m) && m.tagSize == TS && 0 <= kIdx && kIdx <= 3 && onlychanged(m.t)
+//@   loop 7 decreases TS / 4 - j
+//@   loop 8 invariant 0 <= j && j <= TS / 4 && m2shape(m) && m.tagSize == TS && 0 <= kIdx && kIdx <= 3 && len(digest) == TS && objof(digest) < 0 && onlychanged(m.t)
+//@   loop 8 decreases TS / 4 - j
+//@   modifies m.x, m.k0, m.t[0..len(m.t)], m.zucState32
+
+// Sum works on a copy (including a copy of the tag words): nothing of the object changes
+//@ func (*ZUC256Mac).Sum property C11
+//@   requires m2inv(m) && !sameobj(in, m.x) && !sameobj(in, m.k0)
+//@   let M := ghost(m2msg, m)
+//@   let L := ghost(m2len, m)
+//@   ensures len(result) == len(in) + m.tagSize
+//@   ensures forall j :: 0 <= j && j < len(in) ==> result[j] == old(in[j])
+//@   ensures m2inv(m) && ghost(m2len, m) == L && ghost(m2msg, m) == M
+//@   modifies in[len(in)..cap(in)]
+
+//@ func (*ZUC256Mac).Finish property C11
+//@   config tw in 1,2,4
+//@   requires m.tagSize == 4 * tw && m2inv(m) && 0 <= nbits && nbits < 4611686018427387904 && !sameobj(p, m.x) && !sameobj(p, m.k0) && !sameobj(p, m.t) && ghost(m2len, m) + len(p) < 4611686018427387904
+//@   maypanic
+//@   ghostset m2len[m] := 0
+//@   ensures len(result) == m.tagSize
+//@   ensures m2inv(m) && ghost(m2len, m) == 0
+//@   modifies m.t[0..len(m.t)], m.x, m.nx, m.len, m.k0, m.zucState32, ghost(m2msg, m)
+
+//@ func (*zucState32).loadKeyIV32 property C11
+//@   requires s != nil && len(key) == 32 && len(iv) == 23 && len(d) == 16
+//@   nooverflow
+//@   modifies s.lfsr
+
+// construction: a 32-byte key, a 23-byte iv and a tag of 4, 8 or 16 bytes, or an error and no object
+//@ func NewHash256 property C11
+//@   ensures err == nil ==> result0 != nil && m2inv(result0) && ghost(m2len, result0) == 0 && result0.tagSize == tagSize && (tagSize == 4 || tagSize == 8 || tagSize == 16) && len(key) == 32 && len(iv) == 23
+//@   ensures err != nil ==> result0 == nil
+//@   freshornil result0
+//@   modifies nothing
